@@ -488,7 +488,9 @@ Record obs := {
   o_idx : list (option N);            (* TokenIndex(t) over c_cands *)
   o_allowed : list bool;              (* is_allowed_fee_token(t) over c_cands *)
   o_flcount : N;                      (* permissionless forwarder: Count (never written) *)
-  o_logs : list (list logent)         (* over c_targets *)
+  o_logs : list (list logent);        (* over c_targets *)
+  o_exec : list bool;                 (* has_role(h, "executor") of the permissioned forwarder, over c_holders *)
+  o_mgr : list bool                   (* has_role(h, "manager"), over c_holders *)
 }.
 
 Definition observe_tok (c : cfg) (nw : Z) (t : tokst) : tokobs :=
@@ -505,4 +507,7 @@ Definition observe (c : cfg) (st : state) : obs :=
      o_idx := map (fun t => alist_get t (al_idx (al st))) (c_cands c);
      o_allowed := map (is_allowed (al st)) (c_cands c);
      o_flcount := 0;
-     o_logs := map (get_log (logs st)) (c_targets c) |}.
+     o_logs := map (get_log (logs st)) (c_targets c);
+     (* roles are granted in the constructor and never change (no role management in the call alphabet) *)
+     o_exec := map (fun h => memb h (c_executors c)) (c_holders c);
+     o_mgr := map (fun h => memb h (c_managers c)) (c_holders c) |}.
